@@ -473,3 +473,19 @@ Proof.
     - pose proof (forallb_In _ _ L1 x Hx) as Hq. unfold onp in *. apply N.eqb_eq in Hq. rewrite Hq. exact Eq. }
   lia.
 Qed.
+
+(* two maps with the same lookups have the same totals *)
+Lemma ftot_same_get {V} (d : V) (f : V -> nat) : f d = 0%nat -> forall (m m' : list (N * V)),
+  fkeys_nodup m = true -> fkeys_nodup m' = true ->
+  (forall k, f (fget d m k) = f (fget d m' k)) -> ftot f m = ftot f m'.
+Proof.
+  intros Hd. induction m as [|[k v] r IH]; intros m' Hn Hn' H.
+  - cbn. symmetry. apply (ftot_zero d); auto. intros k. rewrite <- H. exact Hd.
+  - cbn in Hn. apply andb_prop in Hn as [H1 H2]. apply negb_true_iff in H1. cbn [ftot].
+    pose proof (ftot_fset d f m' k d Hn' Hd) as E. rewrite Hd in E.
+    rewrite (IH (fset m' k d) H2 (fkeys_nodup_fset m' k d Hn')).
+    + pose proof (H k) as Hk. cbn in Hk. rewrite N.eqb_refl in Hk. lia.
+    + intros k'. rewrite fget_fset. destruct (k' =? k) eqn:Ek.
+      * apply N.eqb_eq in Ek. subst k'. rewrite (fget_nokey d r k H1). reflexivity.
+      * specialize (H k'). cbn in H. rewrite Ek in H. exact H.
+Qed.
